@@ -141,7 +141,9 @@ def enc_op(op):
     if o == 'get':
         return 'get ' + enc_key(op[1])
     if o == 'cmp':
-        return f'cmp {op[1]} {op[2]}'
+        # a 4th element: the operand is an alphabet value under ANOTHER shape (equal only after broadcasting), which
+        # is a value no dump holds: the model is asked about an absent code
+        return f'cmp {op[1]} {op[2] + 900 if len(op) > 3 else op[2]}'
     if o == 'add':
         return f"add {op[1]} {'_' if op[2] is None else op[2]}"
     if o == 'remove':
@@ -233,6 +235,8 @@ class Impl:
             return ('many', self.decode_many(self.main[k]))
         if o == 'cmp':
             v = self.obj(op[2])
+            if len(op) > 3:
+                v = np.array(v)[None, ...] if op[3] == 'lead' else np.tile(np.array(v), (2,) + (1,) * np.ndim(v))
             if self.alpha in FLOATS and as_array:
                 v = ComparableArrayWrapper(v)       # operand handed over wrapped
             m = self.main
@@ -348,6 +352,8 @@ def gen_op(rng, impl, codes, ncodes):
         return ('get', gen_key(rng, N))
     if r < 0.34:
         ops = ['eq', 'ne'] + (['lt', 'gt', 'le', 'ge'] if impl.alpha in ORDERED else [])
+        if impl.alpha in ('arr', 'tuple') and rng.random() < 0.35:
+            return ('cmp', rng.choice(['eq', 'ne']), rng.choice(codes), rng.choice(['lead', 'tile']))
         return ('cmp', rng.choice(ops), rng.choice(codes + [rng.randrange(ncodes)]))
     if r < 0.50 and N > 0:
         e = rng.choice(ev[:-1] + [rng.randint(0, N - 1)] * 3) if rng.random() < 0.93 else rng.choice([N, N + 1])
@@ -558,7 +564,9 @@ def judge_op(ctx, case, init, impl_res, model_replies, tags, k, op, cur_pd, mode
                 return f'{enc_op(op)} raised {impl_res[k][1]}'
             if case['alpha'] in FLOATS:
                 return judge_float_cmp(ctx, case, op, cur_pd, impl_res[k][1], mrep, tags)
-            v = op[2]
+            v = op[2] + 900 if len(op) > 3 else op[2]
+            if len(op) > 3:
+                tags.add('cmp-other-shape')
             f = {'eq': lambda x: x == v, 'ne': lambda x: x != v, 'lt': lambda x: x < v, 'gt': lambda x: x > v,
                  'le': lambda x: x <= v, 'ge': lambda x: x >= v}[op[1]]
             want = [None if x is None else f(x) for x in cur_pd]
